@@ -110,8 +110,9 @@ func (p *Program) transparent(fn *ssa.Function) bool {
 	if p.AllFuncs == nil || fn.Parent() != nil || fn.Blocks == nil || fn.Synthetic != "" || !p.inRapid(fn) {
 		return false
 	}
-	if fn.Origin() != nil {
-		return false
+	if o := fn.Origin(); o != nil {
+		res = p.transparent(o)
+		return res
 	}
 	name := normName(fn.RelString(p.SPkg.Pkg))
 	if knownFuncs[name] || ast.IsExported(fn.Name()) || fn.Name() == "init" {
@@ -150,6 +151,12 @@ func (p *Program) transparent(fn *ssa.Function) bool {
 
 // helperSite returns the unique call site of a transparent helper.
 func (p *Program) helperSite(fn *ssa.Function) ssa.CallInstruction {
+	if fn == nil {
+		return nil
+	}
+	if o := fn.Origin(); o != nil {
+		fn = o
+	}
 	if !p.transparent(fn) {
 		return nil
 	}
@@ -236,5 +243,85 @@ func transparentCallee(in ssa.Instruction) *ssa.Function {
 	if sc == nil || !p.transparent(sc) {
 		return nil
 	}
+	if o := sc.Origin(); o != nil {
+		sc = o
+	}
 	return sc
+}
+
+// body returns the blocks executed as part of fn: its own and those of the transparent helpers it calls.
+func (p *Program) body(fn *ssa.Function) []*ssa.BasicBlock {
+	if fn == nil {
+		return nil
+	}
+	out := append([]*ssa.BasicBlock(nil), fn.Blocks...)
+	var add func(f *ssa.Function, d int)
+	add = func(f *ssa.Function, d int) {
+		for _, b := range f.Blocks {
+			for _, in := range b.Instrs {
+				if c, ok := in.(*ssa.Call); ok && d < 5 {
+					if sc := c.Common().StaticCallee(); sc != nil && p.transparent(sc) {
+						if o := sc.Origin(); o != nil {
+							sc = o
+						}
+						out = append(out, sc.Blocks...)
+						add(sc, d+1)
+					}
+				}
+			}
+		}
+	}
+	add(fn, 0)
+	return out
+}
+
+// alt is one way a value can come about: a phi edge, or a return of a transparent helper.
+type alt struct {
+	Val   ssa.Value
+	Facts []rel
+	Pos   ssa.Instruction
+}
+
+// alternatives unfolds v into the values it can take together with the facts that hold when it takes them.
+func (p *Program) alternatives(v ssa.Value, depth int) []alt {
+	v = p.resolve(v)
+	if depth > 4 {
+		return []alt{{Val: v}}
+	}
+	switch x := v.(type) {
+	case *ssa.Phi:
+		var out []alt
+		for i, e := range x.Edges {
+			pred := x.Block().Preds[i]
+			last := pred.Instrs[len(pred.Instrs)-1]
+			facts := p.facts(last)
+			if iff, ok := last.(*ssa.If); ok && pred.Succs[0] != pred.Succs[1] {
+				facts = append(facts, p.relOf(guard{Cond: iff.Cond, Pol: pred.Succs[0] == x.Block()}))
+			}
+			for _, a := range p.alternatives(e, depth+1) {
+				if p.resolve(a.Val) == ssa.Value(x) {
+					continue
+				}
+				out = append(out, alt{Val: a.Val, Facts: append(append([]rel{}, facts...), a.Facts...), Pos: last})
+			}
+		}
+		return out
+	case *ssa.Call:
+		sc := x.Common().StaticCallee()
+		if sc != nil && p.transparent(sc) && sc.Signature.Results().Len() == 1 {
+			if o := sc.Origin(); o != nil {
+				sc = o
+			}
+			var out []alt
+			for _, ret := range returnsOf(sc) {
+				for _, a := range p.alternatives(p.res(ret, 0), depth+1) {
+					out = append(out, alt{Val: a.Val, Facts: append(p.facts(ret), a.Facts...), Pos: ret})
+				}
+			}
+			if len(out) > 0 {
+				return out
+			}
+		}
+	}
+	return []alt{{Val: v}}
 }
